@@ -26,6 +26,9 @@ os.environ.pop('USE_CFLINK', None)
 os.environ.pop('CRTP_PCAP_LOG', None)
 
 from vf.core import HarnessError  # noqa: E402
+from vf.core import LibraryHang  # noqa: E402
+from vf.core import bounded  # noqa: E402
+from vf.core import HANG_LIMIT  # noqa: E402
 from vf.core import Partial  # noqa: E402
 
 ID = 'C20'
@@ -569,7 +572,7 @@ def connect_case(p, world, crtp, uri, exp, shape, dkind, addr, want_sample=False
     world.reset_log()
     errors = []
     try:
-        link = crtp.get_link_driver(uri, None, errors.append)
+        link = bounded('get_link_driver', crtp.get_link_driver, uri, None, errors.append)
     except HarnessError:
         raise
     except Exception as e:  # noqa
@@ -581,10 +584,10 @@ def connect_case(p, world, crtp, uri, exp, shape, dkind, addr, want_sample=False
         p.case(key=('connect', uri), outcome=('wrong_driver', shape))
         p.violation('connect:wrong_driver:' + cls, 'get_link_driver(%r) returned %r, not a RadioDriver' % (uri, link), rp)
         if link is not None:
-            link.close()
+            bounded('close', link.close)
         return
     seen = world.wait_writes(N_WRITES)
-    link.close()
+    bounded('close', link.close)
     log = world.snapshot()
     p.case(key=('connect', uri), outcome=(exp[0], exp[2], shape, 0 if addr is None else len(addr)))
     p.add('radio_packets_checked_at_least', min(len(log), N_WRITES))
@@ -715,7 +718,7 @@ def scan_case(p, world, address, popname, present, want_sample=False):
     world.air = air
     world.reset_log()
     try:
-        found = RadioDriver().scan_interface(address)
+        found = bounded('scan_interface', RadioDriver().scan_interface, address)
     except HarnessError:
         raise
     except Exception as e:  # noqa
@@ -844,7 +847,7 @@ def claimers(crtp, uri):
     for cls in list(crtp.CLASSES):
         inst = cls()
         try:
-            inst.connect(uri, None, lambda msg: None)
+            bounded('connect', inst.connect, uri, None, lambda msg: None)
         except WrongUriType:
             continue
         except HarnessError:
@@ -853,7 +856,7 @@ def claimers(crtp, uri):
             out.append(cls)
             continue
         out.append(cls)
-        inst.close()
+        bounded('close', inst.close)
     return out
 
 
@@ -885,7 +888,7 @@ def dispatch_case(p, world, crtp, kind, uri, cfg, want_sample=False):
     # what get_link_driver hands out
     world.reset_log()
     try:
-        link = crtp.get_link_driver(uri, None, lambda msg: None)
+        link = bounded('get_link_driver', crtp.get_link_driver, uri, None, lambda msg: None)
         res = 'none' if link is None else type(link).__name__
     except HarnessError:
         raise
@@ -894,7 +897,7 @@ def dispatch_case(p, world, crtp, kind, uri, cfg, want_sample=False):
         res = 'raises ' + type(e).__name__
     io_seen = list(world.io[:2])
     if link is not None:
-        link.close()
+        bounded('close', link.close)
     p.case(key=('get_link_driver', uri, cfgname), outcome=(kind, res))
     if want_sample:
         p.sample({'part': 'dispatch', 'uri': uri, 'driver_list': [c.__name__ for c in crtp.CLASSES],
@@ -974,7 +977,7 @@ def part_dispatch(cfg):
     world.air = ack_all_on(0, 42, 1, DEFAULT_ADDRESS)
     world.reset_log()
     try:
-        scanned = crtp.scan_interfaces()
+        scanned = bounded('scan_interfaces', crtp.scan_interfaces)
     except HarnessError:
         raise
     except Exception as e:  # noqa
@@ -1045,7 +1048,7 @@ def openlink_sequence(p, world, seq, good, cfg_serial, want_sample=False):
         world.reset_log()
         escaped = None
         try:
-            cf.open_link(uri)
+            bounded('open_link', cf.open_link, uri)
         except HarnessError:
             raise
         except Exception as e:  # noqa
@@ -1078,7 +1081,7 @@ def openlink_sequence(p, world, seq, good, cfg_serial, want_sample=False):
                             'after the failed open_link(%r) cf.link is still %r' % (uri, cf.link), rp)
         if attached:
             try:
-                cf.close_link()
+                bounded('close_link', cf.close_link)
             except Exception:  # noqa
                 pass
         prev_class = kind
@@ -1089,7 +1092,7 @@ def openlink_sequence(p, world, seq, good, cfg_serial, want_sample=False):
     world.reset_log()
     escaped = None
     try:
-        cf.open_link(guri)
+        bounded('open_link', cf.open_link, guri)
     except HarnessError:
         raise
     except Exception as e:  # noqa
@@ -1119,7 +1122,7 @@ def openlink_sequence(p, world, seq, good, cfg_serial, want_sample=False):
                             'open_link(%r) transmits on %r, expected %r' % (guri, (idx, ch, rate, a), gexp[:4]), rp)
                 break
     try:
-        cf.close_link()
+        bounded('close_link', cf.close_link)
     except HarnessError:
         raise
     except Exception as e:  # noqa
@@ -1182,7 +1185,15 @@ def _dispatch(job):
     name, arg = job
     buf = io.StringIO()
     with contextlib.redirect_stdout(buf):
-        return globals()['part_' + name](arg)
+        try:
+            return globals()['part_' + name](arg)
+        except LibraryHang as e:
+            p = Partial()
+            p.case(key=('hang', name, repr(arg)), outcome=('hang', str(e)))
+            p.violation('hang:%s:%s' % (name, e), 'part %s%r: the library call %s() did not return within %.0f s of real time '
+                        '(its threads are blocked for good)' % (name, arg, e, HANG_LIMIT),
+                        {'part': 'hang', 'job': name, 'arg': arg})
+            return p
 
 
 def _interleave(lists):
@@ -1286,6 +1297,12 @@ def replay(ck, data):
         for s in ck.samples[-1:]:
             for step in s['same_object_sequence']:
                 print(step)
+    elif part == 'hang':
+        arg = data.get('arg')
+        part_p = _dispatch((data['job'], tuple(arg) if isinstance(arg, list) else arg))
+        ck.merge(part_p)
+        print('job %s%r re-run: %d violations' % (data['job'], arg, part_p.viol_count))
+        return
     else:
         print('unknown replay data %r' % (data,))
     drain_threads()
